@@ -155,7 +155,7 @@ theorem getElem?_concat {α} (l : List α) (x : α) (i : Nat) :
       | succ n => simp
 
 theorem getElem?_concat_len {α} (l : List α) (x : α) : (l ++ [x])[l.length]? = some x := by
-  simp [getElem?_concat]
+  simp
 
 theorem getElem?_concat_of_some {α} {l : List α} {i : Nat} {y : α} (x : α) (h : l[i]? = some y) :
     (l ++ [x])[i]? = some y := by
